@@ -237,7 +237,14 @@ def r5_missing_transitions(ctx, chk, rule="C09.1"):
     bad = False
     for (P, nonempty), t in T["rows"].items():
         if not nonempty or P == "<unknown player>":
-            if t != acc:
+            def _built(x):
+                return x[0] == "cat" and x[1] == acc and x[2][0] == "list" and len(x[2][1]) == 1 and x[2][1][0][0] == "call" and x[2][1][0][1] in ctx.prog.classes
+            built = _built(t) or (t[0] == "ite" and ((_built(t[2]) and t[3] == acc) or (_built(t[3]) and t[2] == acc)))
+            if t != acc and not built:
+                bad = True
+                chk.undecided(rule, f.where(L.node), "what is appended for a state %s is not resolved: %s" % (
+                    "with an empty transition list" if not nonempty else "of an unknown player kind", show(t)[:140]))
+            elif t != acc:
                 bad = True
                 chk.violation(rule, f.where(L.node), "a node is built for a state %s: `%s`; then the 'Missing transitions' count cannot detect it" % (
                     "with an empty transition list" if not nonempty else "of an unknown player kind", show(t)[:120]), expected="nothing appended", found=show(t)[:140],
